@@ -618,8 +618,12 @@ class VLE(Equilibrium, phases='lg'):
             split_frac = 1
         elif split_frac < 0:
             split_frac = 0
-        self._vapor_mol[self._index] = v = self._F_mol * split_frac * y
-        self._liquid_mol[self._index] = self._mol_vle - v
+        mol = self._mol_vle
+        v = self._F_mol * split_frac * y
+        mask = v > mol # Feed composition may be slightly outside the tie line
+        v[mask] = mol[mask]
+        self._vapor_mol[self._index] = v
+        self._liquid_mol[self._index] = mol - v
     
     def set_Tx(self, T, x):
         self._setup()
